@@ -1,4 +1,4 @@
-\* exhaustive: every padded ref/hyp row of length 1..3 over {eos,1,2}, 6 cost triples, 3 eos modes
+\* exhaustive: every padded ref/hyp row of length 1..3 over {eos,1,2}, 7 cost triples, 3 eos modes
 INIT Init
 NEXT Next
 CONSTANTS
